@@ -1286,6 +1286,19 @@ func run(c *core.Ctx) {
 	}
 	each("full", c.Pick(3, 4), fullLeaves())
 	each("reduced", c.Pick(6, 7), reducedLeaves())
+	// the scale family: counts, depths and string lengths on both sides of every fixed capacity
+	for _, d := range gens.ScaleDocs(c.Quick()) {
+		idx++
+		if !c.Mine(idx) {
+			continue
+		}
+		if c.Expired("C18 scale family") {
+			return
+		}
+		c.Add("trees_scale", 1)
+		c.Case(func() string { return "C18 scale document " + d.Name })
+		k.tree(d.Tree, "scale")
+	}
 }
 
 func replay(c *core.Ctx, raw json.RawMessage) {
